@@ -199,6 +199,23 @@ def rule_mode(ctx):
         ctx.ob('C10.mode', f'{f.fq}:logical-root', not phys,
                f'{f.fq} acts at the logical time but reaches a physical-time read through {phys}; NRT hides this, RT results '
                f'then depend on wake-up jitter', f.node, m)
+    # two mode differences that are recorded, not repaired (known findings; see DESIGN.md section 5)
+    oi = ctx.repo.module('sc3.base._oscinterface')
+    rt = oi.functions['OscInterface._get_timetag']
+    nr = oi.functions['OscNrtInterface._get_timetag']
+    rt_uncond = any(isinstance(x, ast.AugAssign) and norm(x) == f'{rt.params[1]} += {rt.params[0]}' and
+                    not any(isinstance(p_, ast.If) and 'current_tt' in norm(p_.test) for p_ in U.parent_chain(x)) for x in walk_local(rt.node))
+    nr_cond = any(isinstance(x, ast.If) and norm(x.test) == '_libsc3.main.current_tt is not _libsc3.main.main_tt' for x in walk_local(nr.node)) or \
+        '_get_logical_time' in full(nr.node)
+    ctx.ob('C10.mode', f'{nr.fq}:function-task-stamp', not (rt_uncond and nr_cond),
+           'RT adds the send instant to every latency; NRT adds it only inside routines, so a bundle sent by a plain Function task awakened '
+           'at t with latency L is stamped t + L in RT and L (from zero) in NRT', nr.node, oi)
+    st = tcl.methods['stop']
+    sw_stop = [t for t in st.node.body if isinstance(t, ast.If) and 'NRT_MODE' in norm(t.test)]
+    nrt_noop = bool(sw_stop) and [norm(x) for x in sw_stop[0].body] == ['return']
+    ctx.ob('C10.mode', f'{st.fq}:nrt-cancels-pending', not nrt_noop,
+           'TempoClock.stop() ends the clock thread in RT (pending tasks are never awakened, running() becomes False) and does nothing in '
+           'NRT: tasks pending on a stopped clock keep running in the NRT run', st.node, m)
     # the mode property
     for cname in ('MetaClock', 'TempoClock'):
         p = m.classes[cname].methods['mode']
